@@ -400,6 +400,30 @@ func c19API(c *Ctx) {
 		}
 	}
 
+	// two configurations are independent: editing the rules AddHealthz gave to one does not reach the other
+	{
+		cfgA, cfgB := &serviceconfig.Service{}, &serviceconfig.Service{}
+		larkinghealth.AddHealthz(cfgA)
+		larkinghealth.AddHealthz(cfgB)
+		mB, errB := larking.NewMux(larking.ServiceConfigOption(cfgB))
+		for _, r := range cfgA.GetHttp().GetRules() { // A's owner rewrites ITS rules in place
+			if g, ok := r.Pattern.(*annotations.HttpRule_Get); ok {
+				g.Get = "/livez"
+				r.AdditionalBindings = append(r.AdditionalBindings, getRule("/readyz"))
+			}
+		}
+		c.Eval("api-healthz", "AddHealthz on two configurations, the first one's rules edited afterwards", true)
+		if errB == nil {
+			hsB := health.NewServer()
+			healthpb.RegisterHealthServer(mB, hsB)
+			recOK, pn1 := serveOn(mB, httptest.NewRequest("GET", "/v1/healthz", nil))
+			recNo, pn2 := serveOn(mB, httptest.NewRequest("GET", "/livez", nil))
+			if pn1 != nil || pn2 != nil || recOK.Code != 200 || recNo.Code == 200 {
+				c.SpecFail("api-healthz", "AddHealthz on two configurations, the first one's rules edited afterwards", fmt.Sprintf("second mux: GET /v1/healthz -> %d, GET /livez -> %d", recOK.Code, recNo.Code), "200 and not found", "C19/healthz/configs-share-rules", "the rules AddHealthz adds to one configuration are the same objects it adds to another")
+			}
+		}
+	}
+
 	// healthz
 	sc := &serviceconfig.Service{}
 	larkinghealth.AddHealthz(sc)
